@@ -525,3 +525,24 @@ def main(argv=None):
     except MachineryError as e:
         print('MACHINERY-ERROR property=%s: %s' % (prop, e), flush=True)
         return EXIT_MACHINERY
+    except Exception as e:  # noqa
+        # An exception nobody expected.  If it was raised inside skyllh (a frame of the traceback lies in the repository under
+        # test) the implementation failed where the harness had no reason to expect a failure: the correspondence could not be
+        # completed -> reported as a violation without a minimised input (the traceback is the replay).  Otherwise it is a bug of
+        # the harness itself: machinery error, no verdict.
+        import traceback
+        tb = traceback.extract_tb(e.__traceback__)
+        in_repo = [f for f in tb if os.path.abspath(f.filename).startswith(os.path.abspath(REPO) + os.sep)]
+        text = ''.join(traceback.format_exception(type(e), e, e.__traceback__))
+        if in_repo and not a.replay:
+            ctx.violation('unexpected-exception', {'traceback': text[-4000:]},
+                          'the implementation raised %s: %s at %s:%d (%s) where the harness expected none; the comparison could not be completed'
+                          % (type(e).__name__, e, os.path.relpath(in_repo[-1].filename, REPO), in_repo[-1].lineno, in_repo[-1].name),
+                          signature='%s/unexpected-exception/%s' % (prop, in_repo[-1].name), kind='correspondence',
+                          relation='harness run completes', no_failing_input=True)
+            try:
+                return ctx.finish()
+            except Exception:  # noqa
+                return EXIT_VIOLATION
+        print('MACHINERY-ERROR property=%s: unexpected %s in the harness itself:\n%s' % (prop, type(e).__name__, text[-3000:]), flush=True)
+        return EXIT_MACHINERY
